@@ -38,13 +38,20 @@ class CloudModel:
         self.violations = []             # contract breaches seen on the wire
         self.faults = []                 # per-request scripted faults: None | 'timeout' | 'connect' | ('status', n) | ('api', code)
         self.counter = 0
+        self.timeout_takes = 10.0        # a request that times out keeps the caller waiting this long (loop time) first
 
     # ---- httpx plumbing ----
     def client_factory(self):
         model = self
 
         async def handler(request: httpx.Request) -> httpx.Response:
-            return model.handle(request)
+            try:
+                return model.handle(request)
+            except httpx.TimeoutException:
+                if model.timeout_takes:
+                    import asyncio
+                    await asyncio.sleep(model.timeout_takes)
+                raise
 
         def factory(*a, **kw):
             return httpx.AsyncClient(transport=httpx.MockTransport(handler))
